@@ -74,7 +74,7 @@ impl Timer for MockNursery {
     fn sleep(&self, dur: Duration) -> BoxFuture<'static, ()> {
         let t = POLLING.with(|p| *p.borrow()).unwrap_or(u8::MAX);
         let flag = Arc::new(AtomicBool::new(false));
-        rec(Ev::Sleep(t, dur.as_millis() as u64));
+        rec(Ev::Sleep(t, dur.as_micros() as u64));
         if t != u8::MAX {
             TASKS.with(|ts| ts.borrow_mut()[t as usize].pending = Some(flag.clone()));
             with(|ex| ex.tasks[t as usize].sleeping = true);
